@@ -11,6 +11,7 @@ import EqlModel.Mode
 import EqlModel.Registry
 import EqlModel.ForAll
 import EqlModel.Rules
+import EqlModel.Iter
 
 open Eql Eql.Sexp
 
@@ -234,6 +235,29 @@ def runRule (args : List Sexp) : Option String := do
     (fireRule W (asgOf β) (build bconds) tag0 kids).map fun tag => (tag, termsVal W (asgOf β) cargs)
   return s!"{id}\tR\t{renderTagged rows}\tS\t{renderTagged spec}\tB\t{showRTree tree}"
 
+-- ---------------------------------------------------------------- lazy domains (C07, C04)
+
+/-- `(iter id (dom n..) (qual n..) (hist k..))`: objects are numbers, `qual` lists the qualifying
+    ones, every history entry is the number of results taken before closing (`-1`: to completion).
+    Per entry: the results delivered, the pull-log length when each result was delivered, and the
+    log length after the evaluation ended. -/
+def runIter (args : List Sexp) : Option String := do
+  let id ← (← args.head?).atom?
+  let dom ← (← field? "dom" args).mapM Sexp.nat?
+  let qual ← (← field? "qual" args).mapM Sexp.nat?
+  let hist ← (← field? "hist" args).mapM Sexp.int?
+  let q : Nat → Bool := fun o => qual.contains o
+  let mut s : Iter.DomSt Nat := Iter.init dom
+  let mut outs : List String := []
+  for k in hist do
+    let kk : Option Nat := if k < 0 then none else some k.toNat
+    let r := Iter.take q kk s
+    -- log length at the delivery of the j-th result of this evaluation
+    let per := (List.range r.1.length).map fun j => (Iter.take q (some (j + 1)) s).2.log.length
+    outs := outs ++ [s!"{",".intercalate (r.1.map toString)}/{",".intercalate (per.map toString)}/{r.2.log.length}"]
+    s := r.2
+  return s!"{id}\t{"|".intercalate outs}"
+
 def process (line : String) : String :=
   match Sexp.parse line with
   | some [.list (.atom "q" :: args)] => (runQuery args).getD "ERR decode"
@@ -241,6 +265,7 @@ def process (line : String) : String :=
   | some [.list (.atom "mode" :: args)] => (runMode args).getD "ERR decode"
   | some [.list (.atom "reg" :: args)] => (runReg args).getD "ERR decode"
   | some [.list (.atom "rule" :: args)] => (runRule args).getD "ERR decode"
+  | some [.list (.atom "iter" :: args)] => (runIter args).getD "ERR decode"
   | some _ => "ERR unknown-command"
   | none => "ERR parse"
 
